@@ -178,6 +178,38 @@ func c09Workloads(perProbe int) []c09Workload {
 			}
 			return out
 		}},
+		{"near-miss", func(e *simEnv, p *refmatch.Probe, r *rand.Rand) [][]byte {
+			// well-formed frames that are almost a reply on the probed flow: direct TCP segments with and
+			// without SACK blocks / with various flags where exactly one of (address, source port,
+			// destination port) is wrong; ICMP errors of other types quoting the probe
+			var out [][]byte
+			v := e.spec.V
+			if !v.V6 {
+				tgt, other := e.spec.Target, uniqueAddr(false, 4242)
+				blk := append([]byte{1, 1}, wirefmt.OptSack([][2]uint32{{e.isn + uint32(p.TTL), e.isn + uint32(p.TTL) + 1}})...)
+				for _, flags := range []uint8{wirefmt.TCPAck, wirefmt.TCPAck | wirefmt.TCPPsh, wirefmt.TCPSyn | wirefmt.TCPAck, wirefmt.TCPRst, wirefmt.TCPRst | wirefmt.TCPAck, wirefmt.TCPFin | wirefmt.TCPAck} {
+					for _, opts := range [][]byte{nil, blk, wirefmt.OptTS(1, 2)} {
+						out = append(out,
+							gen.TCPReply(other, e.local, e.spec.Port, e.lport, 5, p.Seq+1, flags, opts, nil, nil),
+							gen.TCPReply(tgt, e.local, e.spec.Port+1, e.lport, 5, p.Seq+1, flags, opts, nil, nil),
+							gen.TCPReply(tgt, e.local, e.spec.Port, e.lport+1, 5, p.Seq+1, flags, opts, nil, nil),
+							gen.TCPReply(tgt, e.local, e.lport, e.spec.Port, 5, p.Seq+1, flags, opts, nil, nil),
+							gen.TCPReply(tgt, other, e.spec.Port, e.lport, 5, p.Seq+1, flags, opts, nil, nil))
+					}
+				}
+			}
+			q := gen.QuoteBytes(p, 1, "fix")
+			from := routerAddr(v.V6, 1, p.TTL)
+			for _, typ := range []uint8{4, 5, 12, 13, 2} {
+				var rest [4]byte
+				if v.V6 {
+					out = append(out, wirefmt.IPv6{NextHeader: wirefmt.ProtoICMPv6, HopLimit: 9, Src: from, Dst: e.local}.Marshal(wirefmt.ICMPv6(from, e.local, typ, 0, rest, q)))
+				} else {
+					out = append(out, wirefmt.IPv4{TTL: 9, Proto: wirefmt.ProtoICMP, Src: from, Dst: e.local}.Marshal(wirefmt.ICMPv4(typ, 0, rest, q)))
+				}
+			}
+			return out
+		}},
 		{"random", func(e *simEnv, p *refmatch.Probe, r *rand.Rand) [][]byte {
 			var out [][]byte
 			for i := 0; i < perProbe; i++ {
@@ -220,7 +252,7 @@ func checkC09() fw.Check {
 				for _, wl := range c09Workloads(perProbe) {
 					for _, w := range wins {
 						nch := chunks
-						if wl.name == "truncation" {
+						if wl.name == "truncation" || wl.name == "near-miss" {
 							nch = 1
 						}
 						for ch := 0; ch < nch; ch++ {
